@@ -177,6 +177,8 @@ def step (st : St) (ts : List String) : St × String :=
   let ident : Identity := { ident0 with graphs := st.graphs.map (·.name) }
   let codec := st.dirCodec
   let db := st.graphs
+  let wf := db.all (fun g => g.edges.all (fun e => g.nodes.any (·.id == e.src) && g.nodes.any (·.id == e.dst)))
+  if !wf && ["plan", "crash", "readfault", "resume", "resumefault", "final"].contains (ts.headD "") then (st, "bad-db") else
   match ts with
   | ["plan"] =>
     let ops := dumpOps db ident
